@@ -415,11 +415,11 @@ package objects
 //@   at[samenode] call objects.Application.tryNode#1: assert arg2 == request && arg1 == node
 
 //@ func (sa *Application) tryReservedAllocate(headRoom *resources.Resource, nodeIterator func() NodeIterator) (res *AllocationResult)
-//@   props C01 C05
+//@   props C01 C05 C02 C04
 //@   sweep
 //@   mode nopanic=off
 //@   at[schedulable:C01] call objects.Application.tryNode#1: assert arg1.schedulable
-//@   at[headrooms:C05,C02] call objects.Application.tryNode#1: assert arg2 == ask && fitsHR(userHeadroom, ask.allocatedResource) && fitsHR(headRoom, ask.allocatedResource) && !ask.allocated
+//@   at[headrooms:C05,C02,C04] call objects.Application.tryNode#1: assert arg2 == ask && fitsHR(userHeadroom, ask.allocatedResource) && fitsHR(headRoom, ask.allocatedResource) && !ask.allocated
 //@   at[headrooms:C05,C02] call objects.Application.tryNodesNoReserve#1: assert arg1 == alloc && fitsHR(userHeadroom, alloc.allocatedResource) && fitsHR(headRoom, alloc.allocatedResource)
 
 // the non-forced bind gate has exactly two callers; both carry the gate obligations (tryNode above, the cross-node
@@ -758,7 +758,7 @@ package objects
 // every path of the normal allocation cycle that reaches a node (or preemption) has passed the user/group headroom
 // check for this very request; node attempts have also passed the queue headroom check
 //@ func (sa *Application) tryAllocate(headRoom *resources.Resource, allowPreemption bool, preemptionDelay time.Duration, preemptAttemptsRemaining *int, nodeIterator func() NodeIterator, fullNodeIterator func() NodeIterator, getNodeFn func(string) *Node) (res *AllocationResult)
-//@   props C05 C02
+//@   props C05 C02 C04
 //@   sweep
 //@   mode nopanic=off
 //@   at[user] call objects.Application.tryRequiredNode#1: assert arg1 == request && fitsHR(userHeadroom, request.allocatedResource) && fitsHR(headRoom, request.allocatedResource) && !request.allocated
